@@ -1,5 +1,5 @@
 SPECIFICATION Spec
 CONSTANTS
-  MaxLen = 10
+  MaxLen = 12
 INVARIANT TilesOK
 CHECK_DEADLOCK FALSE
